@@ -62,26 +62,41 @@ fn no_trace<F>(_: &OpStateMap) -> Result<Option<Box<dyn NonPrimitiveTrace<F>>>, 
     Ok(None)
 }
 
+#[derive(Clone, Copy, Debug, PartialEq)]
+struct Fp {
+    log_blowup: usize,
+    log_final_poly_len: usize,
+    max_log_arity: usize,
+    num_queries: usize,
+    commit_pow: usize,
+    query_pow: usize,
+}
+const FP_TESTING: Fp = Fp { log_blowup: 2, log_final_poly_len: 0, max_log_arity: 1, num_queries: 2, commit_pow: 1, query_pow: 1 };
+
 struct Setup {
     json: String,
     pis: Vec<BB>,
     cap_height: usize,
     log_n: usize,
+    fp: Fp,
 }
 
-fn concrete_config(cap_height: usize) -> bbp::MyConfig {
+fn fri_params<M>(fp: &Fp, mmcs: M) -> FriParameters<M> {
+    FriParameters { log_blowup: fp.log_blowup, log_final_poly_len: fp.log_final_poly_len, max_log_arity: fp.max_log_arity, num_queries: fp.num_queries, commit_proof_of_work_bits: fp.commit_pow, query_proof_of_work_bits: fp.query_pow, mmcs }
+}
+
+fn concrete_config(cap_height: usize, fp: &Fp) -> bbp::MyConfig {
     let perm = bbp::default_babybear_poseidon2_16();
     let val_mmcs = bbp::MyMmcs::new(bbp::MyHash::new(perm.clone()), bbp::MyCompress::new(perm.clone()), cap_height);
     let challenge_mmcs = bbp::ChallengeMmcs::new(val_mmcs.clone());
-    let fri_params = FriParameters::new_testing(challenge_mmcs, 0);
-    let pcs = bbp::MyPcs::new(bbp::Dft::default(), val_mmcs, fri_params);
+    let pcs = bbp::MyPcs::new(bbp::Dft::default(), val_mmcs, fri_params(fp, challenge_mmcs));
     bbp::MyConfig::new(pcs, bbp::Challenger::new(perm))
 }
 
-fn make_setup(cap_height: usize, log_n: usize) -> Setup {
+fn make_setup(cap_height: usize, log_n: usize, fp: Fp) -> Setup {
     let n = 1usize << log_n;
     let trace = generate_trace_rows::<BB>(0, 1, n);
-    let config = concrete_config(cap_height);
+    let config = concrete_config(cap_height, &fp);
     // x = fib(n-1)-th value on the last row
     let (mut a, mut b) = (0u64, 1u64);
     for _ in 0..n - 1 {
@@ -93,11 +108,12 @@ fn make_setup(cap_height: usize, log_n: usize) -> Setup {
     let air = FibonacciAir {};
     let proof = prove(&config, &air, trace, &pis);
     verify(&config, &air, &proof, &pis).expect("concrete native verify of the honest proof");
-    Setup { json: serde_json::to_string(&proof).expect("ser"), pis, cap_height, log_n }
+    Setup { json: serde_json::to_string(&proof).expect("ser"), pis, cap_height, log_n, fp }
 }
 
 struct Run {
     native_ok: bool,
+    native_err: String,
     circuit_ok: bool,
     circuit_err: String,
     native_events: Vec<Event>,
@@ -128,18 +144,18 @@ fn run_once(s: &Setup, tamper: Option<(u32, u64)>) -> Run {
     let sperm = SPerm::new("perm", shadow);
     let val_mmcs = SMmcs::new(SHash::new(sperm.clone()), SCompress::new(sperm.clone()), s.cap_height);
     let ch_mmcs = SChMmcs::new(val_mmcs.clone());
-    let pcs = SPcs::new(SDft::default(), val_mmcs, FriParameters::new_testing(ch_mmcs, 0));
+    let pcs = SPcs::new(SDft::default(), val_mmcs, fri_params(&s.fp, ch_mmcs));
     let sconfig = SConfig::new(pcs, SChallenger::new(sperm.clone()));
     let air = FibonacciAir {};
 
     let e0 = events_len();
     let nres = std::panic::catch_unwind(std::panic::AssertUnwindSafe(|| verify(&sconfig, &air, &sproof, &spis)));
     let native_ok = matches!(nres, Ok(Ok(())));
+    let native_err = match &nres { Ok(Err(e)) => format!("{e:?}").chars().take(120).collect(), Err(_) => "panic".to_string(), _ => String::new() };
     let native_events = events()[e0..].to_vec();
 
-    let mut out = Run { native_ok, circuit_ok: false, circuit_err: String::new(), native_events, circuit_events: vec![], n_vars, n_ops: 0, n_public: 0, n_private: 0 };
-    let scalars = p3_test_utils::test_fri_scalars();
-    let fvp = FriVerifierParams::with_mmcs(scalars.log_blowup, scalars.log_final_poly_len, scalars.commit_pow_bits, scalars.query_pow_bits, Poseidon2Config::BABY_BEAR_D4_W16);
+    let mut out = Run { native_ok, native_err, circuit_ok: false, circuit_err: String::new(), native_events, circuit_events: vec![], n_vars, n_ops: 0, n_public: 0, n_private: 0 };
+    let fvp = FriVerifierParams::with_mmcs(s.fp.log_blowup, s.fp.log_final_poly_len, s.fp.commit_pow, s.fp.query_pow, Poseidon2Config::BABY_BEAR_D4_W16);
     let r = std::panic::catch_unwind(std::panic::AssertUnwindSafe(|| -> Result<(Vec<Event>, usize, usize, usize), String> {
         let mut cb = CircuitBuilder::<SCh>::new();
         cb.enable_poseidon2_perm::<SymBBD4W16, _>(no_trace::<SCh>, sperm.clone());
@@ -271,14 +287,22 @@ fn main() {
         "p3_uni_stark::verify instantiated at the symbolic field (native side, same symbols)",
     ].iter().map(|s| s.to_string()).collect();
     let thorough = args.tier == "thorough";
-    let configs: Vec<(usize, usize)> = if thorough { vec![(0, 3), (1, 3), (2, 3), (0, 4), (2, 4), (0, 5), (1, 5), (3, 5), (0, 6), (2, 6)] } else { vec![(0, 3), (1, 3), (2, 4), (0, 5)] };
+    let t = FP_TESTING;
+    let a = |max_log_arity: usize, log_final_poly_len: usize, log_blowup: usize| Fp { log_blowup, log_final_poly_len, max_log_arity, num_queries: 1, commit_pow: 0, query_pow: 0 };
+    let pw = |commit_pow: usize, query_pow: usize| Fp { log_blowup: 1, log_final_poly_len: 0, max_log_arity: 1, num_queries: 1, commit_pow, query_pow };
+    let configs: Vec<(usize, usize, Fp)> = if thorough {
+        vec![(0, 3, t), (1, 3, t), (2, 3, t), (0, 4, t), (2, 4, t), (0, 5, t), (1, 5, t), (3, 5, t), (0, 6, t), (2, 6, t),
+             (0, 4, a(2, 0, 1)), (1, 5, a(3, 1, 1)), (0, 5, a(4, 0, 1)), (0, 6, a(5, 0, 1)), (1, 7, a(5, 1, 1)), (0, 4, a(2, 2, 2)), (0, 6, a(3, 0, 3)), (0, 2, pw(2, 4)), (0, 3, pw(3, 2))]
+    } else {
+        vec![(0, 3, t), (1, 3, t), (2, 4, t), (0, 5, t), (0, 4, a(2, 0, 1)), (1, 5, a(3, 1, 1)), (0, 6, a(5, 0, 1)), (0, 2, pw(2, 4))]
+    };
     let mut violations: Vec<Value> = Vec::new();
     let mut solver = Solver::new(SolverKind::Z3, P, 5_000);
     let mut job = 0usize;
     let mut n_prog = 0usize;
-    for (cap_height, log_n) in configs {
-        let setup = make_setup(cap_height, log_n);
-        let label = format!("uni-stark FibonacciAir 2^{log_n} rows, cap_height={cap_height}");
+    for (cap_height, log_n, fp) in configs {
+        let setup = make_setup(cap_height, log_n, fp);
+        let label = if fp == FP_TESTING { format!("uni-stark FibonacciAir 2^{log_n} rows, cap_height={cap_height}") } else { format!("uni-stark FibonacciAir 2^{log_n} rows, cap_height={cap_height}, FRI {fp:?}") };
         job += 1;
         let mine = (job - 1) % args.nshards == args.shard;
         // ---------- honest run ----------
@@ -383,6 +407,123 @@ fn main() {
             }
             let _ = &mut solver;
         }
+        // ---------- (3') every value of every single path-stable element, decided by z3 ----------
+        // All other elements keep their honest values; the altered element is the integer t in
+        // [0,p). Both complete check lists (incl. Merkle/cap checks: the permutation is an
+        // uninterpreted function applied to polynomials in t) are compared by z3 for all t.
+        if honest.native_ok && honest.circuit_ok {
+            let all_events = events();
+            let pin_roots: Vec<H> = all_events.iter().filter_map(|e| if let Event::Pin(h, _) = e { Some(*h) } else { None }).collect();
+            let transcript_vars: BTreeSet<u32> = vars_of(&pin_roots);
+            let (n_eq, n_path) = eq_atoms(&honest.native_events);
+            let (c_eq, c_path) = eq_atoms(&honest.circuit_events);
+            let shadows: Vec<u64> = with_arena(|a| a.var_nodes.iter().map(|n| a.shadows[*n as usize]).collect());
+            let mut candidates: Vec<(u32, u64)> = Vec::new();
+            solver.set_timeout(if thorough { 20_000 } else { 5_000 });
+            for v in 0..honest.n_vars as u32 {
+                if (v as usize) % args.nshards != args.shard {
+                    continue;
+                }
+                if transcript_vars.contains(&v) {
+                    sh.bump("c01.allvalues.skipped_transcript_variable");
+                    continue;
+                }
+                sh.bump("c01.allvalues.obligations");
+                let tv = std::time::Instant::now();
+                let mut uni = Uni::new(v, P);
+                let mut dc = UniDecls::default();
+                let mut dens: Vec<Vec<u64>> = Vec::new();
+                let mut enc = |fms: &[Fm], uni: &mut Uni, dc: &mut UniDecls, dens: &mut Vec<Vec<u64>>| -> Option<Vec<String>> {
+                    let mut out = Vec::new();
+                    for f in fms {
+                        if let Fm::Eq(l, r) = f {
+                            if let Some(a) = uni.eq_smt(*l, *r, dc, dens)? {
+                                if !out.contains(&a) {
+                                    out.push(a);
+                                }
+                            }
+                        }
+                    }
+                    out.sort();
+                    Some(out)
+                };
+                let (Some(na), Some(ca)) = (enc(&n_eq, &mut uni, &mut dc, &mut dens), enc(&c_eq, &mut uni, &mut dc, &mut dens)) else {
+                    sh.bump("c01.allvalues.not_encodable");
+                    continue;
+                };
+                let mut side: Vec<String> = Vec::new();
+                let mut path_ok = true;
+                for f in n_path.iter().chain(c_path.iter()) {
+                    match f {
+                        Fm::Ne(l, r) => {
+                            if let Some((d, ds)) = uni.diff(*l, *r) {
+                                if d.len() > 1 { side.push(format!("(not {})", up_zero_smt(&d, P))); }
+                                dens.extend(ds);
+                            }
+                        }
+                        Fm::Eq(l, r) => {
+                            match uni.diff(*l, *r) { Some((d, _)) => { if d.len() > 1 { path_ok = false; } } None => { path_ok = false; } }
+                        }
+                        _ => {}
+                    }
+                }
+                if !path_ok {
+                    sh.bump("c01.allvalues.path_depends_on_value");
+                    continue;
+                }
+                for d in &dens {
+                    side.push(format!("(not {})", up_zero_smt(d, P)));
+                }
+                if std::env::var("VERIF_TRACE").is_ok() { eprintln!("[allvalues] var {v}: encoded in {:.2}s, native atoms {} circuit atoms {} identical={} ufs={} defs={}", tv.elapsed().as_secs_f64(), na.len(), ca.len(), na == ca, dc.ufs.len(), dc.defs.len()); }
+                if na == ca {
+                    // identical check sets after specialisation (also covers: neither depends on t)
+                    sh.bump("c01.allvalues.unsat");
+                    sh.bump("c01.allvalues.unsat_identical_check_sets");
+                    continue;
+                }
+                let conj = |xs: &Vec<String>| if xs.is_empty() { "true".to_string() } else { format!("(and true {})", xs.join(" ")) };
+                solver.push();
+                for (name, arity) in &dc.ufs {
+                    solver.raw(&format!("(declare-fun {name} ({}) Int)", vec!["Int"; *arity].join(" ")));
+                }
+                solver.raw("(declare-const t Int)");
+                solver.raw(&format!("(assert (and (<= 0 t) (< t {P})))"));
+                for d in &dc.defs {
+                    solver.raw(d);
+                }
+                for hfact in &dc.honest {
+                    solver.raw(&format!("(assert {hfact})"));
+                }
+                solver.raw(&format!("(assert {})", conj(&side)));
+                solver.raw(&format!("(assert (xor {} {}))", conj(&na), conj(&ca)));
+                let r = solver.check();
+                let tval = if matches!(r, SatResult::Sat(_)) { solver.get_int("t") } else { None };
+                solver.pop();
+                match r {
+                    SatResult::Unsat => sh.bump("c01.allvalues.unsat"),
+                    SatResult::Sat(_) => match tval { Some(t) => candidates.push((v, t)), None => sh.bump("c01.allvalues.undecided") },
+                    SatResult::Unknown(_) => {
+                        sh.bump("c01.allvalues.undecided");
+                        if sh.undecided.len() < 20 { sh.undecided.push(json!({"what": "z3 unknown on single-element verdict equivalence", "variable": v, "config": label})); }
+                    }
+                }
+            }
+            for (v, t) in candidates {
+                let tr = run_once(&setup, Some((v, t)));
+                let name = with_arena(|a| a.var_names.get(v as usize).cloned().unwrap_or_default());
+                if tr.native_ok != tr.circuit_ok {
+                    sh.bump("c01.allvalues.sat");
+                    sh.bump("c14.violations_confirmed");
+                    let role = if tr.circuit_ok { "altered-element-accepted-by-circuit" } else { "altered-element-rejected-only-by-circuit" };
+                    violations.push(json!({"property": "C01", "kind": role, "signature": format!("C01/{role}"),
+                        "detail": format!("proof variable #{v} ({name}) set to {t}: native accepts={} circuit accepts={} ({}) (found by z3, replayed on both verifiers)", tr.native_ok, tr.circuit_ok, tr.circuit_err), "program_text": label, "variable": v, "value": t, "confirmed_by_native_replay": true}));
+                } else {
+                    sh.bump("c01.allvalues.sat_not_reproduced");
+                    sh.undecided.push(json!({"what": "solver model did not reproduce on the real code", "variable": v, "value": t, "config": label}));
+                }
+            }
+            let _ = run_once(&setup, None);
+        }
         // ---------- (4) supplementary tamper enumeration (concrete, sharded by variable) ----------
         let n_vars = honest.n_vars;
         let stride = 1;
@@ -390,8 +531,24 @@ fn main() {
             if (v as usize / stride) % args.nshards != args.shard {
                 continue;
             }
-            let t = run_once(&setup, Some((v, tamper_value(&setup, v))));
+            let base = tamper_value(&setup, v);
+            let mut t = run_once(&setup, Some((v, base)));
             sh.bump("c14.tamper.runs");
+            // proof-of-work witnesses: the verdicts depend on the bits of a hash of the witness, and a
+            // later stage (query indices) depends on it too; a single alteration almost never passes
+            // the later stage, so more values are tried (concrete enumeration, reported as such)
+            if !t.native_ok && t.native_err.contains("Pow") {
+                let extra = if thorough { 512 } else { 96 };
+                for k in 1..=extra as u64 {
+                    let t2 = run_once(&setup, Some((v, (base + k) % P)));
+                    sh.bump("c14.tamper.runs");
+                    sh.bump("c14.tamper.pow_witness_extra_values");
+                    if t2.native_ok != t2.circuit_ok {
+                        t = t2;
+                        break;
+                    }
+                }
+            }
             match (t.native_ok, t.circuit_ok) {
                 (false, false) => sh.bump("c14.tamper.both_reject"),
                 (true, true) => sh.bump("c14.tamper.both_accept"),
@@ -411,16 +568,31 @@ fn main() {
         }
     }
     sh.add("distinct_programs", n_prog.max(2) as f64);
+    // the whole-verifier agreement findings are findings for C01 as well as for C14
+    let mirrored: Vec<Value> = violations
+        .iter()
+        .filter(|v| v["property"] == "C14")
+        .map(|v| {
+            let mut w = v.clone();
+            w["property"] = json!("C01");
+            w["signature"] = json!(v["signature"].as_str().unwrap_or("").replacen("C14/", "C01/", 1));
+            w
+        })
+        .collect();
+    violations.extend(mirrored);
+    sh.absorb_solver("z3", &solver.stats);
     sh.violations = violations;
     sh.write(&args.out);
 }
+
+static LAST_FP: std::sync::Mutex<Option<Fp>> = std::sync::Mutex::new(None);
 
 /// honest shadow + 1 for variable `v` (needs one honest pass to read the shadow).
 fn tamper_value(s: &Setup, v: u32) -> u64 {
     thread_local! { static CACHE: std::cell::RefCell<Option<(usize, usize, Vec<u64>)>> = const { std::cell::RefCell::new(None) }; }
     CACHE.with(|c| {
         let mut c = c.borrow_mut();
-        let stale = !matches!(&*c, Some((ch, ln, _)) if *ch == s.cap_height && *ln == s.log_n);
+        let stale = !matches!(&*c, Some((ch, ln, _)) if *ch == s.cap_height && *ln == s.log_n) || std::mem::replace(&mut *LAST_FP.lock().unwrap(), Some(s.fp)) != Some(s.fp);
         if stale {
             let _ = run_once(s, None);
             let shadows: Vec<u64> = with_arena(|a| a.var_nodes.iter().map(|n| a.shadows[*n as usize]).collect());
